@@ -1042,6 +1042,7 @@ func protoProbes(cw *cq.Writer, w *World, c *pconv, lin *lineage, rng *rand.Rand
 	contCut := 0
 	contPick := -1
 	contAt := -1
+	contIsTail := false
 	if mode == "c03" && len(points) > 0 {
 		contPick = rng.Intn(len(points))
 	}
@@ -1059,7 +1060,7 @@ func protoProbes(cw *cq.Writer, w *World, c *pconv, lin *lineage, rng *rand.Rand
 			for v := 0; v < nv; v++ {
 				ch := make([]tornChoice, len(d.fly))
 				for i, f := range d.fly {
-					if f.snp && mode == "c03" && rng.Intn(3) == 0 && len(f.bytes) > 6 {
+					if f.snp && mode == "c03" && (v == 0 || rng.Intn(3) == 0) && len(f.bytes) > 6 {
 						// the body may still decode while the checksum trailer is cut
 						ch[i] = tornChoice{Kind: "prefix", Len: len(f.bytes) - 1 - rng.Intn(5)}
 						continue
@@ -1155,7 +1156,11 @@ func protoProbes(cw *cq.Writer, w *World, c *pconv, lin *lineage, rng *rand.Rand
 				if !res.RFail && !sameDV(res.RContent, res.WContent) && res.REpoch == res.WEpoch {
 					cw.OracleFail("reader-and-writer-recover-differently", "same epoch, different content", pdesc)
 				}
-				if best >= 0 && (pi == contPick && vi == 0 || (mode == "c03" && contImage == nil && tailCut(d, ch) && rng.Intn(2) == 0)) {
+				// continuation: in the first round prefer an image whose newest snapshot lost only its last bytes
+				// (it may still decode while its checksum fails), otherwise the pre-drawn point
+				preferTail := mode == "c03" && desc["round"] == 0 && !contIsTail && tailCut(d, ch)
+				if best >= 0 && (preferTail || (pi == contPick && vi == 0 && !contIsTail)) {
+					contIsTail = preferTail
 					contImage, contDisk, contCut = files, next, best
 					contAt = at
 				}
